@@ -1857,3 +1857,86 @@ def c13_smaps_search(meta, seed, budget):
     for n in range(budget):
         k = rng.randrange(0 if n % 10 == 0 else 1, 5)
         yield {"seed": seed * 100003 + n, "paths": [rng.choice(pool) for _ in range(k)]}
+
+
+# ---------------------------------------------------------------------------
+# C10: nowrap histories against a reference model
+# ---------------------------------------------------------------------------
+
+class RefWrap:
+    def __init__(self):
+        self.last, self.off = {}, {}
+
+    def run(self, name, snap):
+        if name not in self.last:
+            self.last[name], self.off[name] = dict(snap), {}
+            return dict(snap)
+        last, off = self.last[name], self.off[name]
+        for k in list(off):
+            if k[0] not in snap:
+                del off[k]                       # a device that disappears starts afresh when it comes back
+        out = {}
+        for k, tup in snap.items():
+            if k not in last:
+                out[k] = tup
+                continue
+            bits = []
+            for i, v in enumerate(tup):
+                if v < last[k][i]:
+                    off[(k, i)] = off.get((k, i), 0) + last[k][i]
+                bits.append(v + off.get((k, i), 0))
+            out[k] = tuple(bits)
+        self.last[name] = dict(snap)
+        return out
+
+    def clear(self, name=None):
+        if name is None:
+            self.last.clear()
+            self.off.clear()
+        else:
+            self.last.pop(name, None)
+            self.off.pop(name, None)
+
+
+@runner("c10:history")
+def c10_history(model, meta):
+    from psutil import _common
+    events = model["events"]
+    ref = RefWrap()
+    _common.wrap_numbers.cache_clear()
+    problems = []
+    try:
+        for ev in events:
+            if ev[0] == "clear":
+                _common.wrap_numbers.cache_clear(ev[1])
+                ref.clear(ev[1])
+            else:
+                name, snap = ev[1], {k: tuple(v) for k, v in ev[2].items()}
+                got = _common.wrap_numbers(dict(snap), name)
+                want = ref.run(name, snap)
+                if got != want:
+                    problems.append(f"{name}: snapshot {snap} -> {got}, expected {want}")
+                    break
+    except Exception as e:  # noqa: BLE001
+        problems.append(f"raised {type(e).__name__}: {e}")
+    finally:
+        _common.wrap_numbers.cache_clear()
+    return {"env": {}, "result": problems[:2], "exc": None, "verdict": bool(problems), "events": events}
+
+
+@search("c10:history")
+def c10_history_search(meta, seed, budget):
+    import random
+    rng = random.Random(seed)
+    names = ["psutil.net_io_counters", "psutil.disk_io_counters"]
+    keys = ["a", "b", "c"]
+    for n in range(budget):
+        evs = []
+        for _ in range(rng.randrange(2, 8)):
+            if rng.random() < 0.08:
+                evs.append(["clear", rng.choice(names + [None])])
+            else:
+                ks = [k for k in keys if rng.random() < 0.7]
+                evs.append(["snap", rng.choice(names) if rng.random() < 0.3 else names[0],
+                            {k: [rng.randrange(0, 4), rng.randrange(0, 4)] for k in ks}])
+        yield {"events": evs}
